@@ -343,6 +343,8 @@ TECHNIQUE = TECHNIQUE + "; encapsulation inventory on rustc's effective visibili
 def run(ctx, report):
     _run_rules(ctx, report)
     from .. import shared as _S
+    for config in ctx.configs:
+        report.guard("C12.SEQ", _S.chaining, ctx, report, "C12.SEQ", ctx.facts(config), config, [('with_thread_local', 'add_thread_local')])
     report.guard("C12.CONFIGS", _S.configurations, ctx, report, "C12.CONFIGS")
     for config in ctx.configs:
         report.guard("C12.ENCAPSULATED", _S.encapsulated, ctx, report, "C12.ENCAPSULATED", ctx.facts(config), config, "C12")
